@@ -40,10 +40,40 @@ ASSUMPTIONS = [
     "a value 'carries a spec' from a successful new_pandas/new_module until no reference of the model is bound to it",
     "values are compared by identity, as the library documents",
 ]
-SIGNATURES = {}
+def _abs_to_rel_moves(case):
+    """indices of set_path operations that move a file from an absolute to a relative path"""
+    where = {}
+    hits = []
+    for j, op in enumerate(case["ops"]):
+        if op[0] == "new_pandas":
+            where.setdefault((op[1], op[5]), op[4])     # (a value has one spec: later creations for it are refused)
+        elif op[0] == "set_path":
+            old = where.get((op[1], op[2]))
+            if isinstance(old, str) and old.startswith("ABS:") and not op[3].startswith("ABS:"):
+                hits.append(j)
+            where[(op[1], op[2])] = op[3]
+    return hits
+
+
+def sig_external_to_internal_move(case, failure):
+    """KF-C18-7: the case moves the file of a spec from an absolute to a relative path and passes without those
+    moves (counterfactual run)"""
+    cur = case
+    dropped = 0
+    for _ in range(8):
+        o = run_case(cur)
+        hits = o.info.get("abs_to_rel")
+        if not hits:
+            return dropped > 0 and o.failure is None
+        cur = dict(cur, ops=[op for j, op in enumerate(cur["ops"]) if j not in hits])
+        dropped += len(hits)
+    return False
+
+
+SIGNATURES = {"external_to_internal_move": sig_external_to_internal_move}
 
 NAMES = ["d0", "d1", "d2", "x"]
-PATHS = ["a.csv", "b.csv", "book.xlsx", "sub/c.csv"]
+PATHS = ["a.csv", "b.csv", "book.xlsx", "sub/c.csv", "ABS:a.csv"]    # ABS: = an absolute path outside the model
 SHEETS = [None, "s1", "s2", "Sheet1"]
 MOD_PATHS = ["mods/m0.py", "mods/m1.py", "a.csv"]
 RANGE_PATHS = ["rng.xlsx", "rng.xlsx", "book.xlsx"]
@@ -62,7 +92,7 @@ def histories(draw):
     nmodels = draw(st.integers(1, 2))
     ops = []
     for _ in range(draw(st.integers(10, 32))):
-        k = draw(st.integers(0, 21))
+        k = draw(st.integers(0, 22))
         mi = draw(st.integers(0, nmodels - 1))
         where = draw(st.sampled_from(["A", "A", "A", "B", "C", ""]))     # B derives from A; "" = model level
         name = draw(st.sampled_from(NAMES))
@@ -93,6 +123,10 @@ def histories(draw):
             ops.append(["del_space", mi, draw(st.sampled_from(["B", "C"]))])
         elif k == 15:
             ops.append(["close", mi])
+        elif k == 22:
+            # the file of a spec is moved (to a free place, to a claimed one, from relative to absolute)
+            ops.append(["set_path", mi, draw(st.sampled_from([0, 1, 2, 3])),
+                        draw(st.sampled_from(["a.csv", "b.csv", "moved.csv", "ABS:a.csv", "ABS:b.csv"]))])
         elif k == 18:
             ops.append(["new_module", mi, where, name, draw(st.sampled_from(MOD_PATHS)), draw(st.integers(0, 1))])
         elif k == 19:
@@ -168,7 +202,7 @@ class ModelState:
         return self.m if where == "" else self.m.spaces[where]
 
 
-def check_model(st_, out, op, i):
+def check_model(st_, out, op, i, others=None):
     m = st_.m
     refs = all_refs(m)
     bound = {id(v) for _, _, v in refs}
@@ -199,8 +233,13 @@ def check_model(st_, out, op, i):
         if group is m or group is None:
             for sp in io_.specs.values():
                 held.append((str(path), getattr(sp, "sheet", getattr(sp, "_sheet", None)), sp))
+    # (files outside the model folders are registered without a model: their values may belong to any open model)
+    elsewhere = set()
+    for other in (others or ()):
+        if other is not st_ and other.open:
+            elsewhere |= {id(v) for _, _, v in all_refs(other.m)}
     for path, sheet, sp in held:
-        if id(sp.value) not in want:
+        if id(sp.value) not in want and not (os.path.isabs(path) and id(sp.value) in elsewhere):
             return out.fail("manager-leak", "after %r the io manager still holds %r (path %s) whose value no reference "
                                             "of the model is bound to" % (op, sp, path), i)
     locs = []
@@ -238,6 +277,12 @@ def run_case(case):
         shutil.rmtree(tmp, ignore_errors=True)
 
 
+def abspath(path, tmp):
+    if isinstance(path, str) and path.startswith("ABS:"):
+        return os.path.join(tmp, "outside", path[4:])
+    return path
+
+
 def prepare_files():
     """source workbook and module files the histories load from (in the case's scratch directory)"""
     import openpyxl
@@ -272,6 +317,7 @@ def _run(case, out, tmp):
         specs_before = {id(s) for s in m.iospecs}
         if k == "new_pandas":
             _, _, where, name, path, vi, sheet = op
+            path = abspath(path, tmp)
             v = st_.value(vi)
             try:
                 sp_ = st_.space(where)
@@ -364,6 +410,26 @@ def _run(case, out, tmp):
                 rng[key] = op[3]
             except Exception as exc:
                 return out.fail("range-set-raised", "%r raised %r" % (op, exc), i)
+        elif k == "set_path":
+            v = st_.value(op[2])
+            if v is None or id(v) not in st_.carrying:
+                continue
+            newpath = abspath(op[3], tmp)
+            try:
+                oldpath = str(m.get_spec(v).path)
+                m.get_spec(v).path = newpath
+            except Exception:
+                out.count("rejected_moves")
+            else:
+                if os.path.isabs(oldpath) and not os.path.isabs(newpath):
+                    out.info.setdefault("abs_to_rel", []).append(i)
+                # (a workbook is one file: all the specs in it move together)
+                for vid, (v_, _, sheet) in list(st_.carrying.items()):
+                    try:
+                        st_.carrying[vid] = (v_, str(m.get_spec(v_).path), sheet)
+                    except Exception:
+                        pass
+                out.count("moves")
         elif k == "assign":
             _, _, where, name, vi = op
             if st_.value(vi) is None:
@@ -453,7 +519,7 @@ def _run(case, out, tmp):
             cs = byval.get(vid, [])
             if any(x.endswith(".A") for x in cs) and any(x.endswith(".B") for x in cs):
                 multi.add(vid)
-        f = check_model(st_, out, op, i)
+        f = check_model(st_, out, op, i, models)
         if f:
             return f
         try:
@@ -498,6 +564,15 @@ def roundtrip(st_, out, tmp, i):
         m.write(path)
     except Exception as exc:
         return out.fail("write-raised", "writing a model with %d live specs raised %r" % (len(st_.carrying), exc), i)
+    ext = [p_ for (_, p_, _) in st_.carrying.values() if isinstance(p_, str) and os.path.isabs(p_)]
+    if ext:
+        # a file outside the model folder is one location: a copy of the model read into the same session would
+        # claim it a second time.  Checked here: every such file was written.
+        for p_ in ext:
+            if not os.path.exists(p_) or os.path.getsize(p_) == 0:
+                return out.fail("external-file-not-written", "writing the model did not write %s" % p_, i)
+        out.count("roundtrips_external")
+        return None
     try:
         m2 = mx.read_model(path, name="RT")
     except Exception as exc:
